@@ -314,13 +314,24 @@ pub fn belt_raw_cases(tier: Tier) -> Vec<Case> {
 pub fn threefish_cases(tier: Tier) -> Vec<Case> {
     let mut v = Vec::new();
     for nw in [4usize, 8, 16] {
-        let keys = if tier == Tier::Quick { al::t_set(nw * 8, 1) } else { al::s_set(nw * 8, 1) };
-        let tweaks = al::m_set(16, 3);
-        let blocks = if tier == Tier::Quick { al::t_set(nw * 8, 2) } else { al::s_set(nw * 8, 2) };
-        for k in &keys {
-            for t in &tweaks {
-                for b in &blocks {
-                    v.push(Case::Threefish { nw, key: k.clone(), tweak: t.clone(), block: b.clone() });
+        // arms (key set, tweak set, block set); quick: T x M x T; thorough: S x S x T  ∪  T x M x S
+        let arms: Vec<(Vec<Vec<u8>>, Vec<Vec<u8>>, Vec<Vec<u8>>)> = if tier == Tier::Quick {
+            vec![(al::t_set(nw * 8, 1), al::m_set(16, 3), al::t_set(nw * 8, 2))]
+        } else {
+            vec![
+                (al::s_set(nw * 8, 1), al::s_set(16, 3), al::t_set(nw * 8, 2)),
+                (al::t_set(nw * 8, 1), al::m_set(16, 3), al::s_set(nw * 8, 2)),
+            ]
+        };
+        let mut seen = std::collections::HashSet::new();
+        for (keys, tweaks, blocks) in &arms {
+            for k in keys {
+                for t in tweaks {
+                    for b in blocks {
+                        if seen.insert((k.clone(), t.clone(), b.clone())) {
+                            v.push(Case::Threefish { nw, key: k.clone(), tweak: t.clone(), block: b.clone() });
+                        }
+                    }
                 }
             }
         }
